@@ -544,10 +544,14 @@ func (r *Repo) Flatten(treeID string) (map[string]string, error) {
 			if e.Name == "" || strings.Contains(e.Name, "/") {
 				return fmt.Errorf("tree %s (at %q): bad entry name %q", id, prefix, e.Name)
 			}
-			if seen[e.Name] {
+			key := e.Name
+			if e.IsDir() {
+				key += "/" // a file and a directory of one name are two different entries
+			}
+			if seen[key] {
 				return fmt.Errorf("tree %s (at %q): duplicate entry %q", id, prefix, e.Name)
 			}
-			seen[e.Name] = true
+			seen[key] = true
 			p := prefix + e.Name
 			if e.IsDir() {
 				if err := walk(e.ID, p+"/", depth+1); err != nil {
